@@ -1,5 +1,5 @@
 #!/bin/bash
-# tools/try_all_seeds.sh : regression over seeded/*: every kept seeded change must still turn its check red.
+# tools/try_all_seeds.sh [name-filter] : regression over seeded/*<filter>*: every kept seeded change must still turn its check red.
 # One private worktree and build directory for all of them (/repo untouched). Results: seeded/RESULTS.txt
 V=$(cd "$(dirname "$0")/.." && pwd)
 SCR=$(mktemp -d ${TMPDIR:-/tmp}/bxseeds.XXXXXX)
@@ -8,7 +8,7 @@ export BXSIM_REPO=$R BXSIM_VERIF=$V BXSIM_BUILD=$SCR/build BXSIM_EVIDENCE_DIR=$S
 trap '[ $OWN = 1 ] && git -C /repo worktree remove --force $R; rm -rf $SCR' EXIT
 $V/bin/build plain asan tsan || exit 2
 : > $V/seeded/RESULTS.txt.new
-for sd in $V/seeded/*/; do
+for sd in $V/seeded/*${1}*/; do
   n=$(basename $sd); prop=${n%%-*}
   [ -f $sd/superseded ] && { echo "$n $prop SUPERSEDED $(head -1 $sd/superseded)" | tee -a $V/seeded/RESULTS.txt.new; continue; }
   (cd $R && patch -p1 -s --dry-run < $sd/patch.diff >/dev/null 2>&1) || { echo "$n $prop DOES-NOT-APPLY" | tee -a $V/seeded/RESULTS.txt.new; continue; }
@@ -18,4 +18,4 @@ for sd in $V/seeded/*/; do
   cls=$(grep -A1 '^VIOLATION' $SCR/log.$n | grep 'class=' | head -1 | sed 's/^ *//' | cut -c1-120)
   echo "$n $prop exit=$rc $cls" | tee -a $V/seeded/RESULTS.txt.new
 done
-mv $V/seeded/RESULTS.txt.new $V/seeded/RESULTS.txt
+if [ -z "$1" ]; then mv $V/seeded/RESULTS.txt.new $V/seeded/RESULTS.txt; else mv $V/seeded/RESULTS.txt.new $V/seeded/RESULTS.partial.txt; fi
